@@ -56,12 +56,17 @@ fn n_big(p: &EpParams) -> u64 {
     if p.engine == "miri" { 0 } else if tier_thorough(p) { 6 * 8 } else if only_big(p) { 6 * 4 } else { 6 * 2 }
 }
 
+/// Blocking pulls on a subscription whose topic was deleted (it lives on and still owes what it holds).
+fn n_detached(p: &EpParams) -> u64 {
+    if p.engine == "miri" || only_big(p) { 0 } else if tier_thorough(p) { 60 } else { 12 }
+}
+
 pub fn plan(p: &EpParams) -> Plan {
     Plan {
-        episodes: n_grid(p) + n_stream(p) + n_random(p) + n_big(p),
+        episodes: n_grid(p) + n_stream(p) + n_random(p) + n_big(p) + n_detached(p),
         exhaustive: true,
         rule: format!(
-            "grid: max_messages {:?} x backlog sizes {:?} x {{return_immediately, blocking}} (published in batches of 1000, pulls repeated until the backlog is drained); StreamingPull max_outstanding_messages {:?} x backlogs {:?}; blocking pulls on an empty subscription timed against the 5-minute limit on the virtual clock and woken by a later publish; plus {} random sequences of publishes and pulls with random limits; plus 2-4 parked consumers (Pull and StreamingPull, limits 1-10) met by ONE publish of 65536..131075 messages (every parked consumer must be served, within its limit). Non-trivial: a pull with backlog > limit or < limit, or a blocking pull timed against the limit. Distinct: (limit, backlog size, kind).",
+            "grid: max_messages {:?} x backlog sizes {:?} x {{return_immediately, blocking}} (published in batches of 1000, pulls repeated until the backlog is drained); StreamingPull max_outstanding_messages {:?} x backlogs {:?}; blocking pulls on an empty subscription timed against the 5-minute limit on the virtual clock and woken by a later publish; plus {} random sequences of publishes and pulls with random limits; plus 2-4 parked consumers (Pull and StreamingPull, limits 1-10) met by ONE publish of 65536..131075 messages (every parked consumer must be served, within its limit); plus blocking pulls on a subscription whose topic was deleted while its only message is leased elsewhere (waits; woken by the nack). Non-trivial: a pull with backlog > limit or < limit, or a blocking pull timed against the limit. Distinct: (limit, backlog size, kind).",
             limits(p), backlogs(p), STREAM_LIMITS, STREAM_BACKLOGS, n_random(p)
         ),
     }
@@ -215,6 +220,48 @@ async fn episode(p: &EpParams) -> EpReport {
         }
         rep.nontrivial = true;
         rep.key = format!("stream limit={} backlog={}", limit, backlog);
+    } else if idx >= n_grid(p) + n_stream(p) + n_random(p) + n_big(p) {
+        // the topic is deleted while the subscription's only message is leased to consumer A; a
+        // blocking Pull of consumer B finds nothing and waits (its limit is 5 minutes) until A's
+        // nack makes the message available again
+        let (t3, s3) = (topic_name(1, 3), sub_name(1, 3));
+        let cx = Cx::new(&w, 30);
+        cx.create_topic(&t3).await.ok();
+        cx.create_sub(&s3, &t3, 600).await.ok();
+        cx.publish(&t3, &[Msg::tagged("d0")]).await.ok();
+        let held = cx.pull(&s3, 1, true).await.unwrap_or_default();
+        let limit = *rng.pick(&[1, 5, 1000]);
+        let wait_s = rng.range(2, 250);
+        if held.len() == 1 && cx.delete_topic(&t3).await.is_ok() {
+            w.settle().await;
+            let (cb, s3b) = (Cx::new(&w, 31), s3.clone());
+            let task = tokio::spawn(async move { cb.pull(&s3b, limit, false).await });
+            w.advance(Duration::from_secs(wait_s)).await;
+            if task.is_finished() {
+                rep.viol("C15", "C15:empty-before-wait-limit:topic-deleted", format!("a blocking Pull on a subscription whose topic was deleted came back within {} s although nothing was available and its wait limit is 5 minutes", wait_s));
+                task.abort();
+            } else {
+                let ids: Vec<String> = held.iter().map(|d| d.ack_id.clone()).collect();
+                let _ = cx.modify(&s3, &ids, 0).await;
+                w.settle().await;
+                if !task.is_finished() {
+                    rep.viol("C15", "C15:blocked-pull-not-woken:nack:topic-deleted", "a blocked Pull on a subscription whose topic was deleted did not return after the only message was nacked");
+                    rep.viol("C06", "C06:Q-wake:nack:topic-deleted", "a blocked Pull on a subscription whose topic was deleted did not return after the only message was nacked");
+                    task.abort();
+                } else {
+                    match task.await {
+                        Ok(Ok(ds)) if ds.len() == 1 && ds[0].tag == "d0" => rep.inc("blocked_pull_on_detached_subscription_served"),
+                        Ok(Ok(ds)) => rep.viol("C15", "C15:detached-pull-wrong-result", format!("the Pull woken by the nack returned {:?}", ds.iter().map(|d| d.tag.clone()).collect::<Vec<_>>())),
+                        _ => rep.viol("C15", "C15:detached-pull-wrong-result", "the Pull woken by the nack returned an error"),
+                    }
+                }
+            }
+        } else {
+            rep.inconclusive("detached family: set-up failed");
+        }
+        let _ = cx.delete_sub(&s3).await;
+        rep.nontrivial = true;
+        rep.key = format!("detached limit={} wait={}", limit, wait_s);
     } else if idx >= n_grid(p) + n_stream(p) + n_random(p) {
         // several parked consumers, then one publish that makes the backlog cross the 16-bit wrap
         let k = idx - (n_grid(p) + n_stream(p) + n_random(p));
